@@ -88,14 +88,21 @@ URL_IN_TEXT_RE = re.compile(
 # also for performance reasons.
 # NOTE: what precedes the href is first read attribute-wise, so that a " href="
 # inside the quoted value of another attribute is not mistaken for the href
-# (first alternative), then loosely for tags with unbalanced quotes (second one)
-URL_IN_HTML = r"""<a(?:(?:[^>"']|"[^">]*"|'[^'>]*')*?|[^>]*)\shref=(?:"([^"]*)"|'([^']*)'|([^\s>]*))[^>]*>"""
+# (first alternative), then loosely for tags with unbalanced quotes (second
+# one, flagged by its empty first group)
+URL_IN_HTML = r"""<a(?:(?:[^>"']|"[^">]*"|'[^'>]*')*?|()[^>]*)\shref=(?:"([^"]*)"|'([^']*)'|([^\s>]*))[^>]*>"""
+# NOTE: a tag whose quotes are balanced, used to tell the loose reading of a
+# tag with unbalanced quotes from a " href=" found inside a quoted value
+BALANCED_A_TAG = r"""<a(?:[^>"']|"[^">]*"|'[^'>]*')*>"""
 URL_IN_HTML_BINARY = URL_IN_HTML.encode()
+BALANCED_A_TAG_BINARY = BALANCED_A_TAG.encode()
 
 # NOTE: re.A so that the str patterns behave like their binary counterparts
 # (else \s, \b & re.I are unicode-aware for str only)
 URL_IN_HTML_RE = re.compile(URL_IN_HTML, re.I | re.A)
 URL_IN_HTML_BINARY_RE = re.compile(URL_IN_HTML_BINARY, re.I)
+BALANCED_A_TAG_RE = re.compile(BALANCED_A_TAG, re.I | re.A)
+BALANCED_A_TAG_BINARY_RE = re.compile(BALANCED_A_TAG_BINARY, re.I)
 
 QUERY_VALUE_IN_URL_TEMPLATE = r"(?:^|[?&])(%s)=([^&]+)"
 QUERY_VALUE_TEMPLATE = r"%s=([^&]+)"
